@@ -19,7 +19,9 @@ CFG = {
             "membership in the model's output set over all iteration orders; each evaluation additionally re-runs the real "
             "code 20-40 times with fresh maps under the Go oracles; distinct_nontrivial = distinct (op line, reply) pairs",
     "lean_props": ["BtcwVerif.Props.C14"],
-    "engines": ["kahn"],
+    # walletchain-tx: the same two clauses observed on the calls a real Wallet.resendUnminedTxs makes to a fake backend
+    # (violations `C14 key=resendUnminedTxs.*`, emitted next to the C20 ones)
+    "engines": ["kahn", "walletchain-tx"],
     "trusted_base": COMMON_TB + [
         "hand-written model BtcwVerif/Model/Kahn.lean of wtxmgr/kahnsort.go (tied by output-set membership for |S| <= 5 and by "
         "specification check for larger S, on explored inputs only)",
